@@ -386,6 +386,44 @@ pub fn run(ctx: &Ctx) -> i32 {
     total.extra.insert("strings".into(), json!(all.len()));
     total.extra.insert("patterns".into(), json!(pats.len()));
     total.merge(r);
+    // overlap structure: every subject of length <= 8 (10 thorough) over {a, b} x every pattern of
+    // length 1..=5 over {a, b} (period / border structure of the pattern decides where matches
+    // may overlap), plus the same shapes over {é, 😀}
+    {
+        let over = |cs: [char; 2], maxlen: usize| -> Vec<S> {
+            let mut v = vec![];
+            for len in 1..=maxlen {
+                util::for_each_seq(2, len, |seq| v.push(seq.iter().map(|&i| cs[i]).collect()));
+            }
+            v
+        };
+        let sl = if ctx.quick() { 8 } else { 10 };
+        let subj = over(['a', 'b'], sl);
+        let pats2 = over(['a', 'b'], 5);
+        let subj_u = over(['é', '😀'], 6);
+        let pats_u = over(['é', '😀'], 4);
+        let bin = |strs: &[S], pats: &[S], sh: &util::Shard| {
+            let mut rep = Report::new();
+            let arena = Arena::new();
+            let mut p = Program::new(&arena);
+            for (i, s) in strs.iter().enumerate() {
+                if !sh.mine(i as u64) {
+                    continue;
+                }
+                rep.states += 1;
+                for pat in pats {
+                    compare(&mut p, &binary_src(s, pat), &binary_model(s, pat), &mut rep, json!({"type":"string-pair","s":st(s),"p":st(pat)}), &format!("string {:?} pattern {:?}", st(s), st(pat)));
+                    rep.distinct(&(s.len(), pat.len(), find_all(pat, s).len()));
+                }
+            }
+            rep
+        };
+        let r = util::par_forked(&cfg, 128, |sh| bin(&subj, &pats2, sh));
+        total.extra.insert("overlap_subjects_x_patterns".into(), json!(subj.len() * pats2.len() + subj_u.len() * pats_u.len()));
+        total.merge(r);
+        let r = util::par_forked(&cfg, 64, |sh| bin(&subj_u, &pats_u, sh));
+        total.merge(r);
+    }
     let step = if ctx.quick() { 1 } else { 1 };
     let r = util::par_forked(&cfg, 256, |sh| scalar_sweep(sh, step));
     total.extra.insert("scalar_values".into(), json!(r.states));
